@@ -53,6 +53,22 @@ Theorem C03_rename_onto_deleted_path_tracked :
 Proof. exact PC.witness_now_tracked. Qed.
 Print Assumptions C03_rename_onto_deleted_path_tracked.
 
+(** KNOWN FINDING C03-copy-entry-consumes-source-record (open).  git prints copy entries (`C<score> src dst`) only when copy
+    detection is switched on (`diff.renames = copies` in the user's or repository's configuration; pint's own `git log` call
+    does not ask for it), and then only for sources modified in the same commit.  The fold treats a copy like a rename: it
+    continues from -- and DROPS -- the record of the source.  Faithful model, three entries: `M a` (c1); `M a`, `C a -> b`
+    (c2): the list holds a single record (b, origin a) and none for a, so the rules of a that c1 and c2 changed are never
+    compared and stay Noop.  Replayed on the binary (notes/C03.md, corpus/C03/copy_entry_source_modified.json); this is why
+    [log_faithful] admits the statuses A, D, M, T, R only. *)
+Theorem C03_copy_entry_consumes_source_record :
+  let log := [PC.mk "c1" "M" "a" "a"; PC.mk "c2" "M" "a" "a"; PC.mk "c2" "C" "a" "b"] in
+  let changes := GC.fold_log (fun _ _ => GC.File) (fun _ => true) (fun _ => false) log in
+  map (fun c => (GC.ch_status c, GC.ch_before c, GC.ch_after c, GC.ch_commits c)) changes =
+    [(GC.st "C", "a", "b", ["c1"; "c2"; "c2"])] /\
+  GC.get_change_by_path changes "a" = None.
+Proof. vm_compute. split; reflexivity. Qed.
+Print Assumptions C03_copy_entry_consumes_source_record.
+
 (** Under the named hypothesis [PF.log_faithful] (the log is ordered by commit, each entry relates the snapshots before and
     after its commit as `git log --name-status` documents -- A: absent -> present, D: present -> absent, M/T: present in
     both, R s d: s present -> absent, d absent -> present --, every path whose blob differs between consecutive snapshots
